@@ -33,7 +33,7 @@ def named_fn(arg, f, hook=None, tag=None):
 
 
 GRAPHS = ["lin_s", "lin_d_s", "gmrf_d_s", "lmrf_d", "two_lik", "nonlin", "xz_s", "laplace_b", "mean_m", "cmrf_d",
-          "lognormal", "lognormal_cov_s", "lin_sqrtprecF", "reg_d", "lin_geom", "sigdep_x", "direct_param", "cov_sd", "selfnamed", "cov_sdt", "lin_step", "kl_nonlin", "gamma_mv", "heat_pde", "userdef_x", "mapped_x", "mrf2d"]   # ("reg_s" is buildable but RegularizedGaussian has no log-density: not a C01/C11 graph)
+          "lognormal", "lognormal_cov_s", "lin_sqrtprecF", "reg_d", "lin_geom", "sigdep_x", "direct_param", "cov_sd", "selfnamed", "cov_sdt", "lin_step", "kl_nonlin", "gamma_mv", "heat_pde", "userdef_x", "mapped_x", "mrf2d", "two_lik_shared"]   # ("reg_s" is buildable but RegularizedGaussian has no log-density: not a C01/C11 graph)
 
 
 def _lg(r, cov):
@@ -289,6 +289,16 @@ def build(rec, hook=None):
         else:
             pri2 = lambda v: D2.shape[0] * (-(np.log(2) + np.log(1 / v["d"]))) - float(np.sum(np.abs(D2 @ v["x"]))) * v["d"]
         out["closed_form"] = lambda v: _lg(v["y"] - A9 @ np.asarray(v["x"], float), 0.3) + pri2(v) + _lgam(v["d"], 1.0, 0.1)
+    elif g == "two_lik_shared":
+        # ONE model object shared by two data distributions (two data sets observed through the same operator)
+        s = Gamma(1.0, 0.1, name="s")
+        x = Gaussian(np.zeros(n), 0.8, name="x")
+        M = LinearModel(A)
+        y1 = Gaussian(M(x), 0.4, name="y1")
+        y2 = Gaussian(M(x), cov=inv("s", "y2.cov"), name="y2")
+        dens = [y1, y2, x, s]
+        vals = {"y1": ydata, "y2": rs.randn(m), "x": xval, "s": pos()}
+        out["models"]["A"] = M
     elif g == "cov_sd":
         # one callable with TWO hyper-parameter arguments, which may be fixed in separate steps (functools.partial path)
         s = Gamma(1.0, 0.1, name="s")
@@ -359,7 +369,10 @@ def build(rec, hook=None):
         raise ValueError(g)
     # closed forms written out by the harness for the all-Gaussian/Gamma graphs: the reference for the complete assignment
     # that does not pass through any library conditioning code
-    if g == "userdef_x":
+    if g == "two_lik_shared":
+        out["closed_form"] = lambda v: (_lg(v["y1"] - A @ v["x"], 0.4) + _lg(v["y2"] - A @ v["x"], 1 / v["s"]) + _lg(v["x"], 0.8)
+                                        + _lgam(v["s"], 1.0, 0.1))
+    elif g == "userdef_x":
         out["closed_form"] = lambda v: (_lg(v["y"] - A @ v["x"], 1 / v["s"]) - 2.0 * float(np.sum(v["x"])) + _lgam(v["s"], 1.0, 0.1))
     elif g == "gamma_mv":
         out["closed_form"] = lambda v: (_lgam(v["h"], v["m"] ** 2 / v["v"], v["m"] / v["v"]) + _lgam(v["m"], 3.0, 1.0)
